@@ -200,6 +200,25 @@ func (mc *MetricsCollector) UpdateBackendConnections(backendName string, connect
 	backend.ActiveConnections = connections
 }
 
+// AddBackendConnections adjusts the active connections gauge of a backend by delta.
+// Unlike UpdateBackendConnections, which stores a value the caller read earlier, the
+// adjustment is applied under the metrics lock, so concurrent requests cannot overwrite
+// each other's updates with stale values.
+func (mc *MetricsCollector) AddBackendConnections(backendName string, delta int32) {
+	mc.metrics.mutex.Lock()
+	defer mc.metrics.mutex.Unlock()
+
+	backend, exists := mc.metrics.BackendMetrics[backendName]
+	if !exists {
+		backend = &BackendMetrics{
+			Name: backendName,
+		}
+		mc.metrics.BackendMetrics[backendName] = backend
+	}
+
+	backend.ActiveConnections += delta
+}
+
 // RecordRateLimitedRequest records a rate-limited request
 func (mc *MetricsCollector) RecordRateLimitedRequest() {
 	atomic.AddUint64(&mc.metrics.RateLimitedRequests, 1)
